@@ -135,6 +135,14 @@ def _rewrites(body: t.List[ast.stmt]) -> t.Tuple[t.List[t.Tuple[str, str]], int]
         if isinstance(s, (ast.ImportFrom, ast.Import)):
             i += 1
             continue
+        pre = _assign_to(s, "how")
+        if pre is not None:
+            # `how = how.lower().replace("_", "")`: a chain of str methods applied to `how`, before every rewrite
+            if out or PRE_HOW[0]:
+                raise Untranslatable(ob, "how is re-assigned unconditionally after a rewrite")
+            PRE_HOW[0] = _str_chain(pre, ob)
+            i += 1
+            continue
         if isinstance(s, ast.If):
             if s.orelse:
                 raise Untranslatable(ob, "rewrite with an else branch")
@@ -156,6 +164,25 @@ def _rewrites(body: t.List[ast.stmt]) -> t.Tuple[t.List[t.Tuple[str, str]], int]
 
 
 ON_TRUE = [False]
+PRE_HOW: t.List[t.List[str]] = [[]]  # Lean functions applied to `how` before the rewrites, innermost first
+
+
+def _str_chain(node: ast.expr, ob: str) -> t.List[str]:
+    """`how.lower().replace(a, b)...` -> list of Lean String -> String terms, innermost first"""
+    if isinstance(node, ast.Name) and node.id == "how":
+        return []
+    if isinstance(node, ast.Call) and isinstance(node.func, ast.Attribute) and not node.keywords:
+        inner = _str_chain(node.func.value, ob)
+        m = node.func.attr
+        if m == "lower" and not node.args:
+            return inner + ["strLower"]
+        if m == "replace" and len(node.args) == 2:
+            a, b = _const_str(node.args[0], ob), _const_str(node.args[1], ob)
+            if len(a) == 1 and b == "":
+                return inner + [f"(strRemoveChar {lean_char(a)})"]
+            if len(a) == 1 and len(b) == 1:
+                return inner + [f"(strReplaceChar {lean_char(a)} {lean_char(b)})"]
+    raise Untranslatable(ob, f"unsupported normalisation of how: {ast.unparse(node)!r}")
 
 
 # ----------------------------------------------------------------------------------------------
@@ -194,9 +221,10 @@ def _join_parts(fn: ast.FunctionDef) -> t.Dict[str, t.Any]:
     jts = [v for v in (_assign_to(s_, "join_type") for s_ in body) if v is not None]
     JT_EXPR[0] = ast.unparse(jts[0]) if jts else ""
     ON_TRUE[0] = False
+    PRE_HOW[0] = []
     rewrites, i = _rewrites(body)
     rest = body[i:]
-    d: t.Dict[str, t.Any] = {"rewrites": rewrites, "onTrue": ON_TRUE[0]}
+    d: t.Dict[str, t.Any] = {"rewrites": rewrites, "onTrue": ON_TRUE[0], "preHow": list(PRE_HOW[0])}
     # does join() make the other side report the name its last CTE has in the merged expression?
     sync = "other_df.expression.ctes[-1].set('alias', join_expression.ctes[-1].args['alias'].copy())"
     touching = [ast.unparse(s_) for s_ in rest if isinstance(s_, ast.Expr) and ast.unparse(s_).startswith("other_df.expression")]
@@ -475,6 +503,15 @@ def gen_joins(repo: str) -> str:
     o.append("def strContains (needle hay : String) : Bool := strContainsL needle.toList hay.toList")
     o.append("/-- Python `s.replace(a, b)` for single characters -/")
     o.append("def strReplaceChar (a b : Char) (s : String) : String := String.ofList (s.toList.map (fun c => if c = a then b else c))")
+    o.append("/-- Python `s.replace(a, '')` for a single character -/")
+    o.append("def strRemoveChar (a : Char) (s : String) : String := String.ofList (s.toList.filter (fun c => c != a))")
+    o.append("/-- Python `s.lower()` on the ASCII letters (the only ones that can lower-case into a documented spelling) -/")
+    o.append("def asciiLower (c : Char) : Char :=")
+    o.append("  match c with")
+    for k in range(26):
+        o.append(f"  | '{chr(65 + k)}' => '{chr(97 + k)}'")
+    o.append("  | c => c")
+    o.append("def strLower (s : String) : String := String.ofList (s.toList.map asciiLower)")
     o.append("")
     o.append("/-- JOIN_TYPE_MAPPING -/")
     o.append("def joinTypeMapping : List (String × String) := [")
@@ -489,11 +526,17 @@ def gen_joins(repo: str) -> str:
     o.append(f"def joinTypeOf (how : String) : String := strReplaceChar {lean_char(a)} {lean_char(b)} ((joinTypeLookup how joinTypeMapping).getD how)")
     o.append("")
     o.append("/-- the rewrites of (`on is None`, `how`) at the top of `join`, in source order; `on = lit(True)` makes `on` non-None -/")
-    o.append("def rewriteArgs (onNone : Bool) (how : String) : Bool × String :=")
+    o.append("def rewriteArgsCore (onNone : Bool) (how : String) : Bool × String :=")
     o.append("  let st : Bool × String := (onNone, how)")
     for test, val in d["rewrites"]:
         o.append(f"  let st := if {test} then {val} else st")
     o.append("  st")
+    o.append("/-- what `join` does to `how` before anything reads it (`how = how.lower().replace('_', '')`; identity when absent) -/")
+    pre = "how"
+    for f in d["preHow"]:
+        pre = f"{f} ({pre})" if pre != "how" else f"{f} how"
+    o.append(f"def preHow (how : String) : String := {pre}")
+    o.append("def rewriteArgs (onNone : Bool) (how : String) : Bool × String := rewriteArgsCore onNone (preHow how)")
     o.append("def rewriteHow (onNone : Bool) (how : String) : String := (rewriteArgs onNone how).2")
     o.append(f"def rewriteCount : Nat := {len(d['rewrites'])}")
     o.append("/-- does `join` hand the other side's *merged* CTE name to `_handle_self_join` / `_handle_join_column_names_only`? -/")
